@@ -9,10 +9,19 @@ from mirsmt.values import *
 
 
 def new_pipeline(ctx):
+    import os
     I = ctx.interp()
+    engine.TRUNCATED[0] = False
+    budget = float(os.environ.get('VERIF_SCENARIO_BUDGET', '600' if os.environ.get('VERIF_TIER_EFFECTIVE', 'quick') == 'quick' else '2400'))
+    I.deadline = time.time() + budget
     wmodels.install_wasmparser_accessors(I)
     P = pipeline.Pipeline(ctx, I)
     return I, P
+
+
+def should_stop(I, vios):
+    """past the scenario's budget and a violation is already in hand: examining more paths adds nothing"""
+    return bool(vios) and I.deadline is not None and time.time() > I.deadline
 
 
 def parse_ok_paths(I, P, spec, config=None, st=None):
@@ -66,6 +75,10 @@ def _par_work(i):
     from mirsmt import witness as _w
     ctx, fn, items = _PG['ctx'], _PG['fn'], _PG['items']
     ctx.interps.clear()            # (forked copy) statistics of earlier phases belong to the parent
+    import os as _os
+    if _os.environ.get('VERIF_DEBUG_HANG'):
+        import faulthandler
+        faulthandler.dump_traceback_later(int(_os.environ['VERIF_DEBUG_HANG']), repeat=False, file=open('/tmp/hang-w%d.txt' % _os.getpid(), 'w'))
     rep = common.Report(_PG['pid'], 'quick', 0)
 
     def go():
